@@ -413,9 +413,9 @@ fn cbor_normal(b: &[u8]) -> Option<Vec<u8>> { let mut p = 0; let mut o = Vec::ne
 fn ps_nonv1(s: &PlutusScript) -> bool { s.language_version().kind() != LanguageKind::PlutusV1 }
 fn pss_nonv1(s: &PlutusScripts) -> bool { (0..s.len()).any(|i| ps_nonv1(&s.get(i))) }
 fn sr_lang(r: &ScriptRef) -> bool { r.plutus_script().map(|s| ps_nonv1(&s)).unwrap_or(false) }
-fn out_lang(o: &TransactionOutput) -> bool { o.script_ref().map(|r| sr_lang(&r)).unwrap_or(false) }
-fn outs_lang(o: &TransactionOutputs) -> bool { (0..o.len()).any(|i| out_lang(&o.get(i))) }
-fn body_lang(b: &TransactionBody) -> bool { outs_lang(&b.outputs()) || b.collateral_return().map(|o| out_lang(&o)).unwrap_or(false) }
+fn outlang(o: &TransactionOutput) -> bool { o.script_ref().map(|r| sr_lang(&r)).unwrap_or(false) }
+fn outs_lang(o: &TransactionOutputs) -> bool { (0..o.len()).any(|i| outlang(&o.get(i))) }
+fn body_lang(b: &TransactionBody) -> bool { outs_lang(&b.outputs()) || b.collateral_return().map(|o| outlang(&o)).unwrap_or(false) }
 fn ws_lang(w: &TransactionWitnessSet) -> bool { w.plutus_scripts().map(|s| pss_nonv1(&s)).unwrap_or(false) }
 fn aux_lang(a: &AuxiliaryData) -> bool { a.plutus_scripts().map(|s| pss_nonv1(&s)).unwrap_or(false) }
 fn m_negint(m: &M) -> bool {
@@ -459,7 +459,7 @@ fn probe(name: &str, bytes: &[u8]) -> (bool, bool) {
         "ScriptRef" => (ScriptRef::from_bytes(b).map(|x| sr_lang(&x)).unwrap_or(false), false),
         "PlutusScripts" => (PlutusScripts::from_bytes(b).map(|x| pss_nonv1(&x)).unwrap_or(false), false),
         "TransactionOutputLegacy" | "TransactionOutputLegacyDH" | "TransactionOutputMap" | "TransactionOutput" =>
-            (TransactionOutput::from_bytes(b).map(|x| out_lang(&x)).unwrap_or(false), false),
+            (TransactionOutput::from_bytes(b).map(|x| outlang(&x)).unwrap_or(false), false),
         "TransactionOutputs" => (TransactionOutputs::from_bytes(b).map(|x| outs_lang(&x)).unwrap_or(false), false),
         "TransactionBody" => (TransactionBody::from_bytes(b).map(|x| body_lang(&x)).unwrap_or(false), false),
         "TransactionWitnessSet" => (TransactionWitnessSet::from_bytes(b).map(|x| ws_lang(&x)).unwrap_or(false), false),
@@ -882,7 +882,7 @@ fn gen_pd_basic(r: &mut Rng, depth: u32) -> P {
             for _ in 0..n {
                 let key = if r.chance(1, 8) { gen_pd_basic(r, depth - 1) } else if r.chance(1, 2) { P::Int(gen_bigint(r)) } else { P::Bytes(bytes(r)) };
                 if l.iter().any(|(k, _)| *k == key) { continue; }
-                let nv = match r.below(10) { 0 => 0, 1 => 2, _ => 1 };
+                let nv = match r.below(10) { 0 => 0, 1 | 2 => 2, 3 => 3, _ => 1 };
                 l.push((key, (0..nv).map(|_| gen_pd_basic(r, depth - 1)).collect()));
             }
             P::Map(l)
@@ -950,6 +950,42 @@ fn gen(dir: &str) {
             else if toks.len() > 3 && toks[0] == "tj" { emit_line(&mut out, line.trim()); }
         }
     }
+    // typed values holding addresses of every network id (0..15 are all legal) and every kind, built through the API
+    {
+        let mut k = 0u64;
+        for net in 0u8..16 {
+            let cred = |r: &mut Rng, script: bool| { let h = r.bytes(28);
+                if script { Credential::from_scripthash(&ScriptHash::from_bytes(h).unwrap()) } else { Credential::from_keyhash(&Ed25519KeyHash::from_bytes(h).unwrap()) } };
+            let mut addrs: Vec<Address> = Vec::new();
+            for script in [false, true] {
+                let (p, st) = (cred(&mut r, script), cred(&mut r, !script));
+                addrs.push(BaseAddress::new(net, &p, &st).to_address());
+                addrs.push(EnterpriseAddress::new(net, &p).to_address());
+                addrs.push(RewardAddress::new(net, &st).to_address());
+                addrs.push(PointerAddress::new(net, &p, &Pointer::new_pointer(&BigNum::from_str(&r.u64_edge().to_string()).unwrap(),
+                    &BigNum::from_str(&r.below(300).to_string()).unwrap(), &BigNum::from_str(&r.below(3).to_string()).unwrap())).to_address());
+            }
+            if net < 2 { for b58 in ["Ae2tdPwUPEZ2rukBdtHHiNpdXJ2BU6PbQUFZP6FsJ4ZdbRDCwdKpCEYPGWS", "Ae2tdPwUPEZ5uzkzh1o2DHECiUi3iugvnnKHRisPgRRP3CTF4KCMvy54Xd3"] {
+                if let Ok(b) = ByronAddress::from_base58(b58) { addrs.push(b.to_address()); } } }
+            for a in addrs.iter() {
+                k += 1;
+                let coin = BigNum::from_str(&(1_000_000 + k).to_string()).unwrap();
+                let txo = TransactionOutput::new(a, &Value::new(&coin));
+                emit_line(&mut out, &format!("ty TransactionOutput {}", hex::encode(txo.to_bytes())));
+                if let Some(ra) = RewardAddress::from_address(a) {
+                    let mut w = Withdrawals::new(); w.insert(&ra, &coin);
+                    emit_line(&mut out, &format!("ty Withdrawals {}", hex::encode(w.to_bytes())));
+                    let prop = VotingProposal::new(&GovernanceAction::new_info_action(&InfoAction::new()), &Anchor::new(&URL::new("https://x".to_string()).unwrap(),
+                        &AnchorDataHash::from_bytes(vec![7u8; 32]).unwrap()), &ra, &coin);
+                    emit_line(&mut out, &format!("ty VotingProposal {}", hex::encode(prop.to_bytes())));
+                }
+                let mut outs = TransactionOutputs::new(); outs.add(&txo);
+                let mut ins = TransactionInputs::new(); ins.add(&TransactionInput::new(&TransactionHash::from_bytes(vec![k as u8; 32]).unwrap(), 0));
+                let body = TransactionBody::new_tx_body(&ins, &outs, &coin);
+                emit_line(&mut out, &format!("ty TransactionBody {}", hex::encode(body.to_bytes())));
+            }
+        }
+    }
     // JSON -> metadata -> JSON, three schemas
     for _ in 0..600 * scale {
         let d = r.below(4) as u32;
@@ -1000,7 +1036,15 @@ fn gen(dir: &str) {
     // plutus BasicConversions (modelled, no round-trip claim in the property)
     for _ in 0..150 * scale {
         let d = r.below(3) as u32;
-        let p = gen_pd_basic(&mut r, d);
+        let mut p = gen_pd_basic(&mut r, d);
+        if r.chance(1, 3) { // a map at the top with single-, multi- and empty-valued keys
+            let n = 1 + r.below(3) as usize;
+            let mut l: Vec<(P, Vec<P>)> = Vec::new();
+            for i in 0..n { let nv = match r.below(6) { 0 => 0, 1 | 2 => 2 + r.below(2) as usize, _ => 1 };
+                            l.push((P::Int((i as u64 + r.below(3) * 10).to_string()), (0..nv).map(|_| gen_pd_basic(&mut r, 0)).collect())); }
+            l.dedup_by(|a, b| a.0 == b.0);
+            p = P::Map(l);
+        }
         emit_line(&mut out, &format!("p2j 1 {}", p_tokens(&p)));
     }
     for _ in 0..150 * scale {
